@@ -105,17 +105,115 @@ def _mapping(ref_fn, cur_fn) -> dict:
     return out
 
 
+def strip_noops(tree: ast.AST) -> int:
+    """Remove `pass` statements from blocks that contain other statements (always behaviour-preserving)."""
+    n = 0
+    for node in ast.walk(tree):
+        for field in ("body", "orelse", "finalbody"):
+            blk = getattr(node, field, None)
+            if isinstance(blk, list) and len(blk) > 1 and any(isinstance(x, ast.Pass) for x in blk):
+                keep = [x for x in blk if not isinstance(x, ast.Pass)]
+                if keep:
+                    n += len(blk) - len(keep)
+                    blk[:] = keep
+    return n
+
+
+_NEG_OPS = {ast.Is: ast.IsNot, ast.IsNot: ast.Is, ast.Eq: ast.NotEq, ast.NotEq: ast.Eq, ast.In: ast.NotIn, ast.NotIn: ast.In}
+
+
+def _negations(t: ast.expr) -> list:
+    out = []
+    if isinstance(t, ast.UnaryOp) and isinstance(t.op, ast.Not):
+        out.append(t.operand)
+        if isinstance(t.operand, ast.Compare) and len(t.operand.ops) == 1 and type(t.operand.ops[0]) in _NEG_OPS:
+            pass
+    else:
+        out.append(ast.UnaryOp(op=ast.Not(), operand=t))
+    if isinstance(t, ast.Compare) and len(t.ops) == 1 and type(t.ops[0]) in _NEG_OPS:
+        out.append(ast.Compare(left=t.left, ops=[_NEG_OPS[type(t.ops[0])]()], comparators=t.comparators))
+    return out
+
+
+def _equiv_tests(t: ast.expr) -> list:
+    """Other spellings of the same test: `not (a is b)` <-> `a is not b` (and ==, in)."""
+    out = []
+    if isinstance(t, ast.UnaryOp) and isinstance(t.op, ast.Not) and isinstance(t.operand, ast.Compare) and len(t.operand.ops) == 1 and type(t.operand.ops[0]) in _NEG_OPS:
+        c = t.operand
+        out.append(ast.Compare(left=c.left, ops=[_NEG_OPS[type(c.ops[0])]()], comparators=c.comparators))
+    return out
+
+
+def _post_order_ifs(fn):
+    out = []
+
+    def rec(n):
+        for ch in ast.iter_child_nodes(n):
+            rec(ch)
+        if isinstance(n, ast.If):
+            out.append(n)
+
+    rec(fn)
+    return out
+
+
+def align_branches(ref_fn, cur_fn) -> int:
+    """Flip `if T: A else: B` of the analysed function to `if not T: B else: A` (or re-spell `not (a is b)` as `a is not b`) where that
+    makes the statement equal, modulo local names, to an if-statement of the reference function and the statement as written equals none.
+    The rewrite is behaviour-preserving whatever the reference says; the reference only selects the spelling the rules were written against."""
+    locals_, fixed = _core._scope_info(cur_fn)
+    ref_locals, _ = _core._scope_info(ref_fn)
+    fixed = fixed - ref_locals
+    ref_ifs = [n for n in ast.walk(ref_fn) if isinstance(n, ast.If)]
+    if not ref_ifs:
+        return 0
+
+    def matches(cand) -> bool:
+        return any(_core._match(r, cand, locals_, fixed, {}) for r in ref_ifs)
+
+    n = 0
+    for cur in _post_order_ifs(cur_fn):
+        if matches(cur):
+            continue
+        done = False
+        for t2 in _equiv_tests(cur.test):
+            cand = ast.If(test=t2, body=cur.body, orelse=cur.orelse)
+            if matches(cand):
+                cur.test = ast.copy_location(t2, cur.test)
+                ast.fix_missing_locations(cur.test)
+                n += 1
+                done = True
+                break
+        if done or not cur.orelse:
+            continue
+        for t2 in _negations(cur.test):
+            for t3 in [t2] + _equiv_tests(t2):
+                cand = ast.If(test=t3, body=cur.orelse, orelse=cur.body)
+                if matches(cand):
+                    cur.test = ast.copy_location(t3, cur.test)
+                    ast.fix_missing_locations(cur.test)
+                    cur.body, cur.orelse = cur.orelse, cur.body
+                    n += 1
+                    done = True
+                    break
+            if done:
+                break
+    return n
+
+
 def normalise_module(rel: str, tree: ast.AST) -> int:
-    """Rename locals of `tree` in place back to reference names; returns the number of names mapped."""
+    """Strip no-op statements, align branch polarity with the reference spelling, and rename locals of `tree` in place back to
+    reference names; returns the number of rewrites."""
+    n = strip_noops(tree)
     ref = _ref_tree(rel)
     if ref is None:
-        return 0
+        return n
     ref_fns = _outer_functions(ref)
-    n = 0
     for q, cur in _outer_functions(tree).items():
         rf = ref_fns.get(q)
         if rf is None:
             continue
+        n += align_branches(rf, cur)
         mp = _mapping(rf, cur)
         if not mp:
             continue
